@@ -231,11 +231,11 @@ theorem issueMissing_waiters {s : State} (h : Waiters s) (r : ReqId) (k : KeyId)
   unfold issueMissing
   simp only []
   -- common shape of both outcomes
-  have key : ∀ (chk : Checkout) (conn : List Token), chk.token = t → (∀ t', s.connecting.contains t' = true → conn.contains t' = true) →
+  have key : ∀ (chk : Checkout) (conn : List Token) (att : Nat) (own : Token → Nat), chk.token = t → (∀ t', s.connecting.contains t' = true → conn.contains t' = true) →
       (chk.inner = .waiting → conn.contains t = true) →
       Waiters { s with waiting := upd s.waiting t (s.waiting t ++ [r]), chan := upd s.chan r .empty,
-                       connecting := conn, co := upd s.co r (some chk) } := by
-    intro chk conn hct hmono hwait r' t' ⟨ck, h1, h2, h3, h4, h5⟩
+                       connecting := conn, attempts := att, owner := own, co := upd s.co r (some chk) } := by
+    intro chk conn att own hct hmono hwait r' t' ⟨ck, h1, h2, h3, h4, h5⟩
     by_cases e : r' = r
     · subst e
       simp only [upd_same, Option.some.injEq] at h1
@@ -252,13 +252,13 @@ theorem issueMissing_waiters {s : State} (h : Waiters s) (r : ReqId) (k : KeyId)
       · simp only [upd, et, if_false]; exact hw
   split
   · rename_i hcon
-    exact key _ _ rfl (fun _ h => h) (fun _ => hcon)
+    exact key _ _ _ _ rfl (fun _ h => h) (fun _ => hcon)
   · split
-    · refine key _ _ rfl (fun t' ht' => ?_) (fun hi => ?_)
+    · refine key _ _ _ _ rfl (fun t' ht' => ?_) (fun hi => ?_)
       · have : t' ∈ s.connecting := by simpa using ht'
         simp [this]
       · split at hi <;> cases hi
-    · refine key _ _ rfl (fun t' ht' => ht') (fun hi => ?_)
+    · refine key _ _ _ _ rfl (fun t' ht' => ht') (fun hi => ?_)
       split at hi <;> cases hi
 
 end Hd.Pool
